@@ -41,6 +41,7 @@ impl UserModel<'_> {
     ) -> Result<(), String> {
         let old_link = self.model.get_cell_link(sheet, row, column)?;
         let is_new_link = old_link.is_none();
+        let link_before = old_link.clone();
         let mut diff_list = Vec::new();
         let mut needs_evaluation = false;
 
@@ -69,8 +70,20 @@ impl UserModel<'_> {
                     Some(Cell::SpillCell { s, .. }) => Some(Cell::EmptyCell { s }),
                     other => other,
                 };
-                self.model
-                    .set_user_input(sheet, row, column, label.to_string())?;
+                if let Err(e) = self
+                    .model
+                    .set_user_input(sheet, row, column, label.to_string())
+                {
+                    // The label cannot be written (e.g. the cell is part of an array formula):
+                    // take the link set above back so that the failed call changes nothing
+                    if !diff_list.is_empty() {
+                        match link_before {
+                            Some(l) => self.model.set_cell_link(sheet, row, column, l)?,
+                            None => self.model.delete_cell_link(sheet, row, column)?,
+                        }
+                    }
+                    return Err(e);
+                }
                 needs_evaluation = true;
                 diff_list.push(Diff::SetCellValue {
                     sheet,
